@@ -1,10 +1,10 @@
 package props
 
 import (
-	"go/types"
 	"fmt"
 	"go/ast"
 	"go/token"
+	"go/types"
 	"sort"
 	"strconv"
 	"strings"
@@ -215,7 +215,7 @@ func runC18(c *Ctx) Info {
 		}
 	}
 	return Info{
-		Explanation: "Engine E1: allocation-site, field-path-sensitive Andersen points-to analysis over the SSA of every function reachable from every exported function/method of the library (run-time context) and from every package initialiser (init context, separate heap), with a frozen effect table for the few standard-library callees. Every store / map update / copy / append / external write is an obligation: its target may not be (1) a package-level variable or anything reachable from one, in run-time code; (2) a field of the shared codec instance; (3) the caller's parameters object, unless the store is guarded by a test of the same field (normalisation that does nothing on a valid object). (4) no goroutines, sync, atomic, unsafe, reflect, cgo in library code. This is the schedule-independent obligation the property itself names; it does not run a race detector.",
+		Explanation:  "Engine E1: allocation-site, field-path-sensitive Andersen points-to analysis over the SSA of every function reachable from every exported function/method of the library (run-time context) and from every package initialiser (init context, separate heap), with a frozen effect table for the few standard-library callees. Every store / map update / copy / append / external write is an obligation: its target may not be (1) a package-level variable or anything reachable from one, in run-time code; (2) a field of the shared codec instance; (3) the caller's parameters object, unless the store is guarded by a test of the same field (normalisation that does nothing on a valid object). (4) no goroutines, sync, atomic, unsafe, reflect, cgo in library code. This is the schedule-independent obligation the property itself names; it does not run a race detector.",
 		DoesNotCover: "races inside the caller's PixelData implementation or go-dicom's registry; values returned (only absence of shared writes is decided)",
 		Trusted:      append([]string{"frozen effect table for bytes/io/encoding/binary/sort/fmt/math/image callees (pta/summaries.go)"}, commonTrusted...),
 		Extra: map[string]any{
